@@ -103,7 +103,7 @@ def run(ck):
     ck.extra["m2_outcomes"] = dict(outcomes)
 
     # ---------------- M3
-    m3(ck, em, rng, 40 if quick else 300)
+    m3(ck, em, rng, 80 if quick else 500)
 
 
 def m3(ck, em, rng, ntraces):
@@ -123,6 +123,15 @@ def m3(ck, em, rng, ntraces):
             X = np.clip(np.round(X * 20 + 120), 0, 255).astype(np.uint8)     # 8-bit data
         method = "random" if r.rand() < 0.5 else "k-means||"
         cap = int(r.randint(1, 8))
+        slow = t >= ntraces - ntraces // 2
+        if slow:
+            # slowly converging runs (round eight): one broad blob cut into three or four clusters, so that border samples
+            # keep changing sides for many iterations -- iterations in which samples swap clusters while every cluster
+            # SIZE stays the same, or the criterion hardly moves, are where a shortcut for "nothing changes any more"
+            # (other than the stated rule) stops too early
+            n, d, k = int(r.randint(50, 120)), int(r.randint(1, 3)), int(r.randint(3, 5))
+            X = r.normal(size=(n, d)) * r.uniform(0.5, 3) + r.normal(size=(1, d)) * 4
+            method, cap = "random", 8
         thr = [None, 0.0, 1e-5, 1e-2, 0.3][r.randint(0, 5)]
         chunks = None
         if r.rand() < 0.4:
@@ -178,8 +187,24 @@ def m3(ck, em, rng, ntraces):
             rel = traces.rel_change(crits[i - 1], crits[i], thr) if i > 1 else "na"
             # the criterion reported at iteration i must be the distortion of the centroids entering it
             crit_ok = bad or abs(crits[i] - D[i - 1]) <= 1e-9 * max(1.0, abs(D[i - 1]))
+            # the centroids after iteration i are the Lloyd successor of those entering it: the means of the samples
+            # nearest to each predecessor, computed here in plain NumPy (round eight: a run capped at i iterations that
+            # quietly performed fewer returns an earlier member of the trajectory).  Not decided when a sample is
+            # equidistant from two centroids or a cluster is empty.
+            succ_ok, why = True, ""
+            if not bad and not emptied:
+                Xf = np.asarray(X, dtype=float)
+                d2 = ((Xf[:, None, :] - cents[i - 1][None, :, :]) ** 2).sum(axis=-1)
+                two = np.sort(d2, axis=1)[:, :2] if k > 1 else None
+                tied = k > 1 and bool(np.any(two[:, 1] - two[:, 0] <= 1e-9 * (1.0 + two[:, 1])))
+                lab = d2.argmin(axis=1)
+                if not tied and len(set(lab.tolist())) == k:
+                    succ = np.array([Xf[lab == j].mean(axis=0) for j in range(k)])
+                    succ_ok = bool(np.allclose(cents[i], succ, rtol=1e-9, atol=1e-9 * (1.0 + np.abs(Xf).max())))
+                    if not succ_ok:
+                        why = "centroids after %d iterations are not the means of the samples nearest to their predecessors" % i
             ev.append({"ev": "Iter", "k": i, "rank": rk[i], "rel": rel, "guard": bool(emptied or bad),
-                       "valid": bool(crit_ok), "why": ""})
+                       "valid": bool(crit_ok and succ_ok), "why": why})
             same = np.array_equal(final.centroids_, cents[i], equal_nan=True) and \
                 (final.average_min_distance == crits[i] or (np.isnan(final.average_min_distance) and np.isnan(crits[i])))
             if same and stop_at is None and (rel in ("le", "edge") or i == cap):
@@ -201,7 +226,10 @@ def m3(ck, em, rng, ntraces):
         if v == "ok":
             ck.sample({"mechanism": "M3", "trace": tr["ev"][:3], "meta": {k: me[k] for k in ("seed", "n", "d", "k", "init", "cap", "thr")}}, limit=8)
         else:
-            clause = "CriterionIsMeanMinDist" if v == "Valid" else v
+            clause = v
+            if v == "Valid":
+                whys = [e["why"] for e in tr["ev"][:pos] if not e["valid"]]
+                clause = "CentroidIsMeanOfMembers" if whys and whys[-1] else "CriterionIsMeanMinDist"
             ck.violation("M3:TraceLoop:" + clause, {"mechanism": "M3", "module": "TraceLoop", "trace": tr, "meta": me,
                                                      "rejected_at_event": pos, "clause": clause})
     ck.extra["m3_traces"] = len(trs)
